@@ -919,6 +919,25 @@ def _step_flow(r, idx):
 
 
 # ------------------------------------------------------------------------ self-test
+
+_FS_OLD = '        minval = sys.maxsize\n        for i in range(self.n):\n            for j in range(self.n):\n                if (not self.row_covered[i]) and (not self.col_covered[j]):\n                    if self.C[i][j] is not DISALLOWED and minval > self.C[i][j]:\n                        minval = self.C[i][j]\n        return minval'
+_FS_ZIP = ("        rows = [i for i in range(self.n) if not self.row_covered[i]]\n        cols = [j for j in range(self.n) if not self.col_covered[j]]\n"
+           "        uncovered = [self.C[i][j] for i, j in zip(rows, cols)\n                     if self.C[i][j] is not DISALLOWED]\n"
+           "        return min(uncovered, default=sys.maxsize)")
+_FS_CROSS = _FS_ZIP.replace("for i, j in zip(rows, cols)", "for i in rows for j in cols")
+_FS_ROWS = ("        open_cols = [j for j in range(self.n) if not self.col_covered[j]]\n        minval = sys.maxsize\n        for i in range(self.n):\n"
+            "            if self.row_covered[i]:\n                continue\n            row = self.C[i]\n"
+            "            vals = [row[j] for j in open_cols if row[j] is not DISALLOWED]\n            if vals:\n                minval = %s\n        return minval")
+_S5_OLD = ("        count = 0\n        path = self.path\n        path[count][0] = self.Z0_r\n        path[count][1] = self.Z0_c\n        done = False\n"
+           "        while not done:\n            row = self.__find_star_in_col(path[count][1])\n            if row >= 0:\n                count += 1\n"
+           "                path[count][0] = row\n                path[count][1] = path[count-1][1]\n            else:\n                done = True\n\n"
+           "            if not done:\n                col = self.__find_prime_in_row(path[count][0])\n                count += 1\n"
+           "                path[count][0] = path[count-1][0]\n                path[count][1] = col\n")
+_S5_NEW = ("        path = self.path\n        path[0][0] = self.Z0_r\n        path[0][1] = self.Z0_c\n        count = 0\n        while True:\n"
+           "            star_row = self.__find_star_in_col(path[count][1])\n            if star_row < 0:\n                break\n"
+           "            path[count + 1][0] = star_row\n            path[count + 1][1] = %s\n            path[count + 2][0] = star_row\n"
+           "            path[count + 2][1] = self.__find_prime_in_row(star_row)\n            count += 2\n")
+
 MUTANTS = [
     Mutant('row-aliased', MK, "            new_row = row[:]\n", "            new_row = row\n", 'D1'),
     Mutant('pad-bypassed', MK, "        self.C = self.pad_matrix(cost_matrix)\n", "        self.C = cost_matrix\n", 'D1'),
@@ -996,6 +1015,10 @@ MUTANTS = [
     Mutant('step4-erases-primes-on-entry', MK, "        star_col = -1\n        while not done:\n            (row, col) = self.__find_a_zero(row, col)", "        star_col = -1\n        self.__erase_primes()\n        while not done:\n            (row, col) = self.__find_a_zero(row, col)", 'D4'),
     Mutant('step6-erases-primes', MK, "        if (events == 0):\n            raise UnsolvableMatrix(\"Matrix cannot be solved!\")\n        return 4", "        if (events == 0):\n            raise UnsolvableMatrix(\"Matrix cannot be solved!\")\n        self.__erase_primes()\n        return 4", 'D4'),
     Mutant('step5-erases-before-path', MK, "        done = False\n        while not done:\n            row = self.__find_star_in_col(path[count][1])", "        done = False\n        self.__erase_primes()\n        while not done:\n            row = self.__find_star_in_col(path[count][1])", 'D4'),
+    # wave 5: refactorings with one slip (the corrected forms are BENIGN twins below)
+    Mutant('find-smallest-zip-for-cross-product', MK, _FS_OLD, _FS_ZIP, 'D4'),
+    Mutant('find-smallest-assignment-for-fold', MK, _FS_OLD, _FS_ROWS % 'min(vals)', 'D4'),
+    Mutant('step5-star-column-from-Z0', MK, _S5_OLD, _S5_NEW % 'self.Z0_c', 'D4'),
     Mutant('step1-subtracts-max', MK, "            minval = min(vals)", "            minval = max(vals)", 'D4'),
     Mutant('step1-subtracts-twice', MK, "                    self.C[i][j] -= minval\n        return 2", "                    self.C[i][j] -= 2 * minval\n        return 2", 'D4'),
     Mutant('step2-covers-not-cleared', MK, "        self.__clear_covers()\n        return 3\n\n    def __step3", "        return 3\n\n    def __step3", 'D4'),
@@ -1064,6 +1087,9 @@ BENIGN = [
            "                if self.row_covered[i]:\n                    self.C[i][j] += minval\n                if not self.col_covered[j]:\n                    self.C[i][j] -= minval\n                if self.row_covered[i] != (not self.col_covered[j]):\n                    events += 1\n"),
     Benign('step3-erases-nonexistent-primes', MK, "        n = self.n\n        count = 0\n        for i in range(n):", "        n = self.n\n        count = 0\n        self.__erase_primes()\n        for i in range(n):"),
     Benign('step3-dict-choice', MK, "        if count >= n:\n            step = 7 # done\n        else:\n            step = 4\n\n        return step", "        next_step = {True: 7, False: 4}\n        return next_step[count >= n]"),
+    Benign('find-smallest-cross-product-of-index-lists', MK, _FS_OLD, _FS_CROSS),
+    Benign('find-smallest-per-row-fold', MK, _FS_OLD, _FS_ROWS % 'min(minval, min(vals))'),
+    Benign('step5-offsets-from-counter', MK, _S5_OLD, _S5_NEW % 'path[count][1]'),
     Benign('step6-by-cases', MK, "                if self.row_covered[i]:\n                    self.C[i][j] += minval\n                    events += 1\n                if not self.col_covered[j]:\n                    self.C[i][j] -= minval\n                    events += 1\n                if self.row_covered[i] and not self.col_covered[j]:\n                    events -= 2 # change reversed, no real difference\n",
            "                if self.row_covered[i] and self.col_covered[j]:\n                    self.C[i][j] += minval\n                    events += 1\n                elif not self.row_covered[i] and not self.col_covered[j]:\n                    self.C[i][j] -= minval\n                    events += 1\n"),
     Benign('find-smallest-de-morgan', MK, "                if (not self.row_covered[i]) and (not self.col_covered[j]):\n                    if self.C[i][j] is not DISALLOWED and minval >",
